@@ -162,12 +162,16 @@ class World:
         k = act[0]
         hid = hd['hid']
         if k == 'fire':
+            if self.nuid >= self.prog.get('max_events', 600):
+                return None  # bounded programs
             e, cu = self.fire(act[1], parent=uid, by=hid, target=comp)
             fired.append(cu)
         elif k == 'stop':
             event.stop()
             self.L('STOP', uid, hid)
         elif k == 'flush':
+            if self.flush_depth >= self.prog.get('max_flush_depth', 3):
+                return None  # bounded nesting: the interpreter stack is finite
             self.L('FLC', self.flush_depth)
             self.flush_depth += 1
             try:
